@@ -457,3 +457,9 @@ func schedTwoCtx() {
 		kit.Failf("sched2-second-recv", "second Recv on a: done=%v %s / %v", r3.Done(), kit.ErrName(r3.Err), r3.Val)
 	}
 }
+
+// Bodies re-run by C11 under the race-instrumented build.
+var RaceBodies = map[string]func(){
+	"c03-send-recv-reply": schedSendRecvReply,
+	"c03-two-ctx":         schedTwoCtx,
+}
